@@ -191,4 +191,55 @@ theorem byteFingerprints_expected : byteFingerprints = [
   ("int.go:UnmarshalVarUint64", "1b77313b638d86a2")
 ] := by rfl
 
+/-! ### tagFilter.Init -/
+
+theorem fullMatchCost_expected : fullMatchCost = 1 := by rfl
+
+theorem prefixMatchCost_expected : prefixMatchCost = 2 := by rfl
+
+theorem literalMatchCost_expected : literalMatchCost = 3 := by rfl
+
+theorem suffixMatchCost_expected : suffixMatchCost = 4 := by rfl
+
+theorem middleMatchCost_expected : middleMatchCost = 6 := by rfl
+
+theorem reMatchCost_expected : reMatchCost = 100 := by rfl
+
+theorem maxOrValues_expected : maxOrValues = 20 := by rfl
+
+theorem cases_isDotStar_expected : cases_isDotStar = ["syntax.OpCapture", "syntax.OpAlternate", "syntax.OpStar", "default"] := by rfl
+
+theorem cases_isDotPlus_expected : cases_isDotPlus = ["syntax.OpCapture", "syntax.OpAlternate", "syntax.OpPlus", "default"] := by rfl
+
+theorem cases_getOrValuesExt_expected : cases_getOrValuesExt = ["syntax.OpCapture", "syntax.OpLiteral", "syntax.OpEmptyMatch", "syntax.OpAlternate", "syntax.OpCharClass", "syntax.OpConcat", "default"] := by rfl
+
+theorem cases_getOptimizedReMatchFuncExt_expected : cases_getOptimizedReMatchFuncExt = ["syntax.OpCapture", "syntax.OpLiteral", "syntax.OpConcat", "default"] := by rfl
+
+theorem cases_simplifyRegexpExt_expected : cases_simplifyRegexpExt = ["syntax.OpCapture", "syntax.OpStar", "syntax.OpPlus", "syntax.OpQuest", "syntax.OpRepeat", "syntax.OpAlternate", "syntax.OpConcat", "syntax.OpEmptyMatch", "default"] := by rfl
+
+theorem src_isLiteral_expected : src_isLiteral = ["if sre.Op == syntax.OpCapture { return isLiteral(sre.Sub[0]) }", "return sre.Op == syntax.OpLiteral && sre.Flags&syntax.FoldCase == 0"] := by rfl
+
+theorem src_matchSuffix_expected : src_matchSuffix = ["if len(b) == 0 || b[len(b)-1] != tagSeparatorChar { return false, fmt.Errorf(\"unexpected end of b; want %d; b=%q\", tagSeparatorChar, b) }", "b = b[:len(b)-1]", "if !tf.isRegexp { return len(b) == 0, nil }", "ok := tf.reSuffixMatch(b)", "return ok, nil"] := by rfl
+
+theorem src_newMatchFuncForOrSuffixes_expected : src_newMatchFuncForOrSuffixes = ["if len(orValues) == 1 { v := orValues[0] reMatch = func(b []byte) bool { return string(b) == v } } else { reMatch = func(b []byte) bool { for _, v := range orValues { if string(b) == v { return true } } return false } }", "reCost = uint64(len(orValues)) * literalMatchCost", "return reMatch, reCost"] := by rfl
+
+theorem tfFingerprints_expected : tfFingerprints = [
+  ("tag_filters.go:Init", "1d390cde5a6f94ad"),
+  ("tag_filters.go:InfluxRegrep", "374b0f3074d3651d"),
+  ("tag_filters.go:getRegexpPrefix", "59ec75d7069514d7"),
+  ("tag_filters.go:getRegexpFromCache", "e74102dc61187b8c"),
+  ("tag_filters.go:getOptimizedReMatchFunc", "4ae38f77896fb984"),
+  ("tag_filters.go:getOptimizedReMatchFuncExt", "57114b76b3840e24"),
+  ("tag_filters.go:isDotStar", "201305f5d9b3a92a"),
+  ("tag_filters.go:isDotPlus", "6f0909ae38ae5d58"),
+  ("tag_filters.go:getOrValues", "e17636a1ef658d10"),
+  ("tag_filters.go:getOrValuesExt", "ba52b0cda52bac3d"),
+  ("tag_filters.go:extractRegexpPrefix", "7acc14ef62bca6cc"),
+  ("tag_filters.go:simplifyRegexp", "3f6f1182c8daab6a"),
+  ("tag_filters.go:simplifyRegexpExt", "689921beccd8a3fa"),
+  ("tag_filters.go:SetRegexMatchAll", "91d22e68c10c5cb5"),
+  ("search.go:getTSIDsForTagFilterSlow", "b9d10d3ed04799cb"),
+  ("search.go:collectTSIDsForSuffix", "a42bb19f0cb6c35f")
+] := by rfl
+
 end OG.C10.Facts
